@@ -272,11 +272,35 @@ fn programs(depth: usize) -> Vec<(String, Vec<(String, String)>)> {
         ("two default exports in one file (types)", vec![("entry.ts", "type A = string;\ntype B = number;\nexport default A;\nexport { B as default };\nparse.buildParsers<{ A: A }>();\n")]),
         ("two default exports in an imported file (values)", vec![("t.ts", "const a = 1;\nconst b = 2;\nexport default a;\nexport { b as default };\n"), ("entry.ts", "import d from \"./t\";\nparse.buildParsers<{ D: typeof d }>();\n")]),
         ("recursive results of Exclude at top level: object, tuple, through a union", vec![("entry.ts", "type Tree = { kids: Tree[], tag: string };\ntype RT = [number, ...RT[]];\ntype X = Exclude<Tree | string, string>;\ntype Y = Exclude<RT, string>;\ntype Z = Exclude<RT | Tree | null, null>;\nparse.buildParsers<{ X: X, Y: Y, Z: Z }>();\n")]),
+        ("enum imported from a longer file, member initialised by a call", vec![("colors.ts", "// padding padding padding padding padding padding padding\n// padding padding padding padding padding padding padding\n// padding padding padding padding padding padding padding\n// padding padding padding padding padding padding padding\n// padding padding padding padding padding padding padding\n// padding padding padding padding padding padding padding\n// padding padding padding padding padding padding padding\n// padding padding padding padding padding padding padding\n// padding padding padding padding padding padding padding\n// padding padding padding padding padding padding padding\n// padding padding padding padding padding padding padding\n// padding padding padding padding padding padding padding\nexport enum Color {\n  Red = \"red\",\n  Custom = makeColor(),\n}\n"), ("entry.ts", "import { Color } from \"./colors\";\nparse.buildParsers<{ C: Color.Custom }>();\n")]),
+        ("enum imported from a longer file, member initialised by a constant of that file", vec![("colors.ts", "// padding padding padding padding padding padding padding\n// padding padding padding padding padding padding padding\n// padding padding padding padding padding padding padding\n// padding padding padding padding padding padding padding\n// padding padding padding padding padding padding padding\n// padding padding padding padding padding padding padding\n// padding padding padding padding padding padding padding\n// padding padding padding padding padding padding padding\n// padding padding padding padding padding padding padding\n// padding padding padding padding padding padding padding\n// padding padding padding padding padding padding padding\n// padding padding padding padding padding padding padding\nconst BASE = \"red\" as const;\nexport enum Color {\n  Red = BASE,\n  Blue = \"blue\",\n}\n"), ("entry.ts", "import { Color } from \"./colors\";\nparse.buildParsers<{ C: Color.Red, D: Color }>();\n")]),
+        ("enum member types and Exclude over an imported enum", vec![("colors.ts", "export enum Color { Red = \"red\", Blue = \"blue\", N = 1 }\n"), ("entry.ts", "import { Color } from \"./colors\";\ntype X = Exclude<Color, Color.Red>;\ntype Y = Color.N | Color.Blue;\nparse.buildParsers<{ X: X, Y: Y }>();\n")]),
+        ("generic alias with a semantic computation instantiated with two recursive tuples", vec![("entry.ts", "type L1 = [number, ...L1[]];\ntype L2 = [string, ...L2[]];\ntype NoNull<T> = Exclude<T, null>;\ntype A = NoNull<L1>;\ntype B = NoNull<L2>;\nparse.buildParsers<{ A: A, B: B }>();\n")]),
+        ("generic alias with keyof / indexed access instantiated with two recursive objects", vec![("entry.ts", "type R1 = { v: number, next: R1 | null };\ntype R2 = { w: string, prev: R2 | null };\ntype NN<T> = Exclude<T, null>;\ntype K<T> = keyof T;\ntype A = NN<R1 | null>;\ntype B = NN<R2 | null>;\ntype C = K<R1>;\ntype D = K<R2>;\nparse.buildParsers<{ A: A, B: B, C: C, D: D }>();\n")]),
         ("four files export a type of the same name at different depths", vec![("a/t.ts", "export type T = { a: string };\n"), ("b/a/t.ts", "export type T = { b: string };\n"), ("c/b/a/t.ts", "export type T = { c: string };\n"), ("t.ts", "export type T = { d: string };\n"),
             ("entry.ts", "import { T as T1 } from \"./a/t\";\nimport { T as T2 } from \"./b/a/t\";\nimport { T as T3 } from \"./c/b/a/t\";\nimport { T as T4 } from \"./t\";\nparse.buildParsers<{ T1: T1, T2: T2, T3: T3, T4: T4 }>();\n")]),
     ];
     for (d, fs) in mf {
         out.push((d.to_string(), fs.into_iter().map(|(a, b)| (a.to_string(), b.to_string())).collect()));
+    }
+    // generated: the same type name exported from 2 or 3 files laid out in every way over a few directory shapes
+    let paths = ["t.ts", "a/t.ts", "b/t.ts", "a/b/t.ts", "b/a/t.ts", "a/a/t.ts", "c/b/a/t.ts", "c/a/t.ts"];
+    for generic in [false, true] {
+        for i in 0..paths.len() { for j in (i + 1)..paths.len() { for k in (j + 1)..=paths.len() {
+            let chosen: Vec<usize> = if k == paths.len() { vec![i, j] } else { vec![i, j, k] };
+            let mut files: Vec<(String, String)> = vec![];
+            let mut entry = String::new();
+            let mut req: Vec<String> = vec![];
+            for (n, pi) in chosen.iter().enumerate() {
+                let field = ["x", "y", "z"][n];
+                files.push((paths[*pi].to_string(), if generic { format!("export type Page<T> = {{ {}: T[] }};\n", field) } else { format!("export type Page = {{ {}: string }};\n", field) }));
+                entry.push_str(&format!("import {{ Page as P{} }} from \"./{}\";\n", n, paths[*pi].trim_end_matches(".ts")));
+                req.push(if generic { format!("P{}: P{}<string>", n, n) } else { format!("P{}: P{}", n, n) });
+            }
+            entry.push_str(&format!("parse.buildParsers<{{ {} }}>();\n", req.join(", ")));
+            files.push(("entry.ts".to_string(), entry));
+            out.push((format!("same type name in {:?} ({})", chosen.iter().map(|x| paths[*x]).collect::<Vec<_>>(), if generic { "generic" } else { "plain" }), files));
+        } } }
     }
     let ls = leaves();
     for l in &ls { out.push((l.to_string(), single(l))); }
